@@ -345,7 +345,10 @@ func c11order(c *Ctx) {
 				continue
 			}
 			found = true
-			keys, tail := comparatorKeys(s.Pkg.TypesInfo, s.Lit)
+			keys, tail, okSSA := c.ComparatorChain(s.Lit)
+			if !okSSA {
+				keys, tail = comparatorKeys(s.Pkg.TypesInfo, s.Lit)
+			}
 			got := strings.Join(keys, ",") + "|" + tail
 			r.Check(got == want, "SORT", s.Encl+"/key-order", c.Pos(s.Call.Pos()), "victim order is "+got,
 				"victim order is "+got+" but the published order is "+want)
